@@ -395,10 +395,10 @@ def _s_acts():
 
 def _s_buf():
   i = st.integers(0, 7)
-  return st.one_of(
-    i.map(lambda n: {"k": "live", "i": n}), i.map(lambda n: {"k": "live", "i": n}), i.map(lambda n: {"k": "live", "i": n}),
-    i.map(lambda n: {"k": "used", "i": n}), i.map(lambda n: {"k": "used", "i": n}),
-    st.just({"k": "zero"}), i.map(lambda n: {"k": "never", "i": n}), i.map(lambda n: {"k": "oor", "i": n}))
+  live = i.map(lambda n: {"k": "live", "i": n})
+  used = i.map(lambda n: {"k": "used", "i": n})
+  return st.one_of(live, live, live, live, live, live, used, used, used,
+                   st.just({"k": "zero"}), i.map(lambda n: {"k": "never", "i": n}), i.map(lambda n: {"k": "oor", "i": n}))
 
 
 def _s_op():
@@ -417,7 +417,8 @@ def _strategy(tier, max_len):
   return st.fixed_dictionaries({
     "max_buffers": st.integers(0, 4),
     "miss_send_len": st.sampled_from([0, 14, 64, 128, 0xffff]),
-    "ops": st.lists(_s_op(), min_size=1, max_size=max_len),
+    "ops": st.one_of(st.lists(_s_op(), min_size=1, max_size=10), st.lists(_s_op(), min_size=10, max_size=max_len),
+                     st.lists(_s_op(), min_size=25, max_size=max_len)),
   })
 
 
